@@ -141,15 +141,17 @@ def _triangle(v, v1, v2):
     B = np.copy(v[1]), np.copy(v1[1]), np.copy(v2[1])
     C = np.copy(v[0]), np.copy(v1[0]), np.copy(v1[0])
 
-    touching_contact = abs(point_to_triangle(
-        np.zeros(3), np.row_stack((A[0], B[0], C[0])))[0]) < EPSILON_SQRT
-    if touching_contact:
-        return GjkState.CONTACT, None, 1
-
+    # Check for a degenerated triangle first: point_to_triangle() divides by
+    # zero when two of its points coincide.
     degenerated_triangle = (np.all(np.abs(A[0] - B[0]) < EPSILON)
                             or np.all(np.abs(A[0] - C[0]) < EPSILON))
     if degenerated_triangle:
         return GjkState.NO_CONTACT, None, 0
+
+    touching_contact = abs(point_to_triangle(
+        np.zeros(3), np.row_stack((A[0], B[0], C[0])))[0]) < EPSILON_SQRT
+    if touching_contact:
+        return GjkState.CONTACT, None, 1
 
     AO = -A[0]
 
